@@ -475,10 +475,52 @@ class TermAnalysis(Analysis):
             return out
         if not any(isinstance(n, (ast.Call, ast.Subscript, ast.Await, ast.BinOp)) for n in ast.walk(node)):
             return out
+        need = self._index_need(node, state)
         for names in eng.try_stack[-1:]:
             for n in names:
-                out.append((n, state))
+                if need is not None and n in ("IndexError", "LookupError"):
+                    # the statement's only way into this handler: one of its constant subscripts is past the end of the buffer
+                    out.append((n, State(state.env, state.pc + ((("cmp", "<", ("call", ("ext", "len"), (need[0],), ()), const(need[1])), True),))))
+                else:
+                    out.append((n, state))
         return out
+
+    def _index_need(self, node, state):
+        """(buffer term, n): every subscript of the simple statement `node` is a constant index into one buffer and they all exist iff
+        len(buffer) >= n; None when the statement has calls that may raise themselves, other subscripts, or no subscript"""
+        if not isinstance(node, (ast.Assign, ast.AnnAssign, ast.AugAssign, ast.Expr, ast.Return)):
+            return None
+        subs = [n for n in ast.walk(node) if isinstance(n, ast.Subscript) and isinstance(n.ctx, ast.Load)]
+        if not subs:
+            return None
+        for c in ast.walk(node):
+            if isinstance(c, (ast.Await, ast.Yield, ast.YieldFrom)):
+                return None
+            if isinstance(c, ast.Call) and not (isinstance(c.func, ast.Name) and c.func.id in ("bool", "int", "float", "abs", "len", "bytes", "min", "max")):
+                return None
+        base, need = None, 0
+        for sb in subs:
+            if isinstance(sb.slice, ast.Slice):
+                continue
+            k = sb.slice.value if isinstance(sb.slice, ast.Constant) else (-sb.slice.operand.value if isinstance(sb.slice, ast.UnaryOp) and isinstance(sb.slice.op, ast.USub)
+                                                                               and isinstance(sb.slice.operand, ast.Constant) else None)
+            if not isinstance(k, int) or isinstance(k, bool):
+                return None
+            if base is not None and norm(sb.value) != norm(base):
+                return None
+            base = sb.value
+            need = max(need, k + 1 if k >= 0 else -k)
+        if base is None:
+            return None
+        saved = self.record
+        self.record = False
+        try:
+            bt = self.ev(base, state.copy())
+        except AnalysisError:
+            return None
+        finally:
+            self.record = saved
+        return bt, need
 
     # -------------------------------------------------------------- statements
     def visit(self, node, state):
@@ -488,11 +530,18 @@ class TermAnalysis(Analysis):
     def stmt(self, node, state: State) -> State:
         st = state.copy()
         self._inl = []
+        need = None
+        eng = self.engine
+        if eng is not None and eng.try_stack and any(n in ("IndexError", "LookupError") for n in eng.try_stack[-1]):
+            need = self._index_need(node, state)
         st = self._stmt(node, st)
         for kind, pc, _exc in self._inl:
             if kind == "normal" and pc:
                 st.pc = st.pc + tuple(pc)
         self._inl = []
+        if need is not None:
+            # it completed: its subscripts existed (the complement of the handler's entry condition)
+            st.pc = st.pc + ((("cmp", ">=", ("call", ("ext", "len"), (need[0],), ()), const(need[1])), True),)
         return st
 
     def _stmt(self, node, st: State) -> State:
@@ -946,10 +995,17 @@ class TermAnalysis(Analysis):
             return parts[0] if len(parts) == 1 else ("bool", "and", tuple(parts))
         if isinstance(e, ast.IfExp):
             return ("ite", self.ev(e.test, st), self.ev(e.body, st), self.ev(e.orelse, st))
-        if isinstance(e, ast.Tuple):
-            return ("tuple", tuple(self.ev(x, st) for x in e.elts))
-        if isinstance(e, ast.List):
-            return ("list", tuple(self.ev(x, st) for x in e.elts))
+        if isinstance(e, (ast.Tuple, ast.List)):
+            items = []
+            for x in e.elts:
+                v = self.ev(x, st)
+                if v[0] == "starred" and v[1][0] in ("tuple", "list") and not any(y[0] == "starred" for y in v[1][1]):
+                    items += list(v[1][1])          # [a, *(b, c)] is [a, b, c]
+                elif v[0] == "starred" and is_const(v[1]) and isinstance(v[1][1], (bytes, tuple, list)) and len(v[1][1]) <= 64:
+                    items += [const(y) for y in v[1][1]]          # [a, *bytes(3)] is [a, 0, 0, 0]
+                else:
+                    items.append(v)
+            return ("tuple" if isinstance(e, ast.Tuple) else "list", tuple(items))
         if isinstance(e, ast.Set):
             return ("set", tuple(self.ev(x, st) for x in e.elts))
         if isinstance(e, ast.Dict):
@@ -1009,8 +1065,11 @@ class TermAnalysis(Analysis):
                     self.assign(g.target, item, sub)
                     conds = [self.ev(c, sub) for c in g.ifs]
                     if any(not is_const(c) for c in conds):
-                        out = None
-                        break
+                        # element present only when its condition holds
+                        live = [c for c in conds if not is_const(c)]
+                        if all(c[1] for c in conds if is_const(c)):
+                            out.append(("when", live[0] if len(live) == 1 else ("bool", "and", tuple(live)), self.ev(e.elt, sub)))
+                        continue
                     if all(c[1] for c in conds):
                         out.append(self.ev(e.elt, sub))
                 if out is not None:
@@ -1044,7 +1103,66 @@ class TermAnalysis(Analysis):
                 self._bind_bound(t, st)
 
     def _call(self, e: ast.Call, st: State) -> Term:
-        t = self._call0(e, st)
+        t = self._fold_over_literal(self._call0(e, st))
+        return self._call_norm(t, e, st)
+
+    def _fold_over_literal(self, t: Term) -> Term:
+        """any / all / sum / functools.reduce(or_ | add | and_ | xor) over a literal sequence (possibly with conditional elements from an
+        unrolled comprehension) are the corresponding operator chains"""
+        if t[0] != "call" or t[1][0] != "ext" or t[3]:
+            return t
+        name = t[1][1]
+        OPS_ = {"operator.or_": "|", "operator.add": "+", "operator.and_": "&", "operator.xor": "^", "operator.ior": "|", "operator.iadd": "+"}
+
+        def seq_of(x):
+            return list(x[1]) if x[0] in ("tuple", "list") and not any(y[0] == "starred" for y in x[1]) else None
+        if name in ("any", "all") and len(t[2]) == 1:
+            items = seq_of(t[2][0])
+            if items is not None and items:
+                parts = []
+                for it in items:
+                    if it[0] == "when":
+                        parts.append(("bool", "and", (it[1], it[2])) if name == "any" else ("bool", "or", (("un", "not", it[1]), it[2])))
+                    else:
+                        parts.append(it)
+                return parts[0] if len(parts) == 1 else ("bool", "or" if name == "any" else "and", tuple(parts))
+        if (name == "functools.reduce" and 2 <= len(t[2]) <= 3 and t[2][0][0] == "global" and t[2][0][1] in OPS_) or (name == "sum" and 1 <= len(t[2]) <= 2):
+            op = OPS_[t[2][0][1]] if name == "functools.reduce" else "+"
+            seq = t[2][1] if name == "functools.reduce" else t[2][0]
+            init = (t[2][2] if len(t[2]) == 3 else None) if name == "functools.reduce" else (t[2][1] if len(t[2]) == 2 else const(0))
+            items = seq_of(seq)
+            neutral = {"|": 0, "+": 0, "^": 0}.get(op)
+            if items is not None and (neutral is not None or not any(it[0] == "when" for it in items)) and (init is not None or items):
+                acc = init
+                for it in items:
+                    v = ("ite", it[1], it[2], const(neutral)) if it[0] == "when" else it
+                    acc = v if acc is None else (v if (is_const(acc) and acc[1] == neutral and neutral is not None and not isinstance(acc[1], bool)) else ("bin", op, acc, v))
+                return acc
+        return t
+
+    def _affine_table(self, d):
+        """(lo, hi, c) when the literal dict term d maps every integer k of lo..hi to k + c"""
+        if d[0] != "dict" or len(d[1]) < 2 or not all(is_const(k) and isinstance(k[1], int) and not isinstance(k[1], bool) and is_const(v) and isinstance(v[1], int)
+                                                       and not isinstance(v[1], bool) for k, v in d[1]):
+            return None
+        ks = sorted(k[1] for k, _v in d[1])
+        if ks != list(range(ks[0], ks[-1] + 1)) or len({v[1] - k[1] for k, v in d[1]}) != 1:
+            return None
+        return ks[0], ks[-1], d[1][0][1][1] - d[1][0][0][1]
+
+    def _call_norm(self, t: Term, e: ast.Call, st: State) -> Term:
+        if t[0] == "call" and t[1][0] == "meth" and is_const(t[1][1]) and isinstance(t[1][1][1], dict):
+            t = ("call", ("meth", lit(t[1][1][1]), t[1][2]), t[2], t[3])          # a folded table is a dict term
+        if t[0] == "call" and t[1][0] == "meth" and t[1][2] == "get" and 1 <= len(t[2]) <= 2 and not t[3] and len(t[1][1]) > 1 and t[1][1][0] == "dict" \
+                and len(t[1][1][1]) > 12 and self._affine_table(t[1][1]) is not None and _integer_valued_loose(t[2][0]):
+            # TABLE.get(x[, d]) for a table that is k -> k + c on a range: (x + c) if lo <= x <= hi else d
+            lo, hi, c = self._affine_table(t[1][1])
+            x = t[2][0]
+            inside = ("bool", "and", (("cmp", "<=", const(lo), x), ("cmp", "<=", x, const(hi))))
+            return ("ite", inside, x if c == 0 else ("bin", "+" if c > 0 else "-", x, const(abs(c))), t[2][1] if len(t[2]) == 2 else const(None))
+        if t[0] == "call" and t[1] == ("ext", "bytes") and len(t[2]) == 1 and not t[3] and is_const(t[2][0]) and isinstance(t[2][0][1], int) \
+                and not isinstance(t[2][0][1], bool) and 0 <= t[2][0][1] <= 64:
+            return const(bytes(t[2][0][1]))          # bytes(n): n zero bytes
         if t[0] == "call" and t[1] == ("ext", "slice") and 1 <= len(t[2]) <= 3 and not t[3] and \
                 all(is_const(a) and (a[1] is None or (isinstance(a[1], int) and not isinstance(a[1], bool))) for a in t[2]):
             return const(slice(*[a[1] for a in t[2]]))          # a slice object with constant bounds
@@ -1074,9 +1192,9 @@ class TermAnalysis(Analysis):
             if fields is not None and all(fn in (None, "") and not spec and conv is None for _lit, fn, spec, conv in fields) \
                     and sum(1 for _l, fn, _s, _c in fields if fn == "") == len(t[2]):
                 parts, k = [], 0
-                for lit, fn, _spec, _conv in fields:
-                    if lit:
-                        parts.append(const(lit))
+                for lit_, fn, _spec, _conv in fields:
+                    if lit_:
+                        parts.append(const(lit_))
                     if fn == "":
                         parts.append(t[2][k])
                         k += 1
@@ -1266,6 +1384,20 @@ class TermAnalysis(Analysis):
         def leaves(x):
             return leaves(x[2]) + leaves(x[3]) if x[0] == "ite" else [x]
         lv = leaves(v)
+        OPF = {"operator.pos": ("u", "pos"), "operator.neg": ("u", "neg"), "operator.not_": ("u", "not"), "operator.invert": ("u", "~"),
+               "operator.add": ("b", "+"), "operator.sub": ("b", "-"), "operator.mul": ("b", "*"), "operator.or_": ("b", "|"), "operator.and_": ("b", "&"),
+               "operator.xor": ("b", "^"), "operator.lshift": ("b", "<<"), "operator.rshift": ("b", ">>"), "operator.floordiv": ("b", "//"), "operator.mod": ("b", "%"),
+               "operator.truediv": ("b", "/")}
+        if not kwargs and all(x[0] == "global" and x[1] in OPF and len(args) == (1 if OPF[x[1]][0] == "u" else 2) for x in lv):
+            # the functions of the operator module are the operators: (pos if c else neg)(x) is x if c else -x
+            def app(x):
+                if x[0] == "ite":
+                    return ("ite", x[1], app(x[2]), app(x[3]))
+                kind, op = OPF[x[1]]
+                if kind == "u":
+                    return args[0] if op == "pos" else ("un", op, args[0])
+                return ("bin", op, args[0], args[1])
+            return app(v)
         if is_const(v) and isinstance(v[1], tuple) and len(v[1]) == 2 and v[1][0] in ("operator.itemgetter", "operator.attrgetter") and len(args) == 1 and not kwargs:
             # GETTER = itemgetter(k1, k2)/attrgetter("a", "b.c");  GETTER(x) is (x[k1], x[k2]) / (x.a, x.b.c)  (the bare element for one key)
             x = args[0]
@@ -1608,6 +1740,8 @@ def bind_args(fn: FuncInfo, args: Tuple[Term, ...], kwargs=()) -> Dict[str, Term
         args = (("global", fn.cls.qual),) + tuple(args)      # Class.method(...) called through the class
     for n, v in zip(names, args):
         out[n] = v
+    if a.vararg is not None and len(args) >= len(names) and not any(isinstance(v, tuple) and v and v[0] == "starred" for v in args):
+        out[a.vararg.arg] = ("tuple", tuple(args[len(names):]))          # def f(*xs): f(a, b) binds xs = (a, b)
     for k, v in kwargs:
         out[k] = v
     return out
